@@ -8,6 +8,7 @@ package verifsync
 
 import (
 	"fmt"
+	"reflect"
 	"runtime"
 	realsync "sync"
 )
@@ -38,7 +39,7 @@ type (
 // Event is one recorded step of an execution.
 type Event struct {
 	Thread int
-	Kind   string      // lock unlock access note
+	Kind   string      // lock acquire unlock rlock racquire runlock access touch begin end
 	Ptr    interface{} // object identity (a pointer)
 	Field  string
 	Write  bool
@@ -237,15 +238,18 @@ func (s *Sched) acquire(m interface{}, t *thread) {
 	case *Mutex:
 		x.owner = t.id + 1
 		t.held[x] = true
+		s.Events = append(s.Events, Event{Thread: t.id, Kind: "acquire", Ptr: x})
 	case *RWMutex:
 		x.writer = t.id + 1
 		t.held[x] = true
+		s.Events = append(s.Events, Event{Thread: t.id, Kind: "acquire", Ptr: x})
 	case rlockReq:
 		if x.m.readers == nil {
 			x.m.readers = map[int]int{}
 		}
 		x.m.readers[t.id]++
 		t.held[x.m] = false // held in shared mode: excludes writers only
+		s.Events = append(s.Events, Event{Thread: t.id, Kind: "racquire", Ptr: x.m})
 	}
 }
 
@@ -362,6 +366,33 @@ func Access(obj interface{}, field string, write bool, where string) {
 	}
 	s.record("access", obj, field, write, where)
 	s.pause()
+}
+
+// Touch records a read or write of a map or slice (inserted by the instrumenter before index
+// assignments, delete calls, index reads and range loops in every minidyn package). It is NOT a
+// scheduling point: the events only feed the happens-before race check, which needs no particular
+// interleaving to see that two accesses are unordered. Values that are not maps or slices, and
+// nil ones, are ignored. The event keeps the value alive, so an address is never reused within
+// one execution.
+func Touch(obj interface{}, write bool, where string) {
+	s := active
+	if s == nil || s.aborting || obj == nil {
+		return
+	}
+	v := reflect.ValueOf(obj)
+	switch v.Kind() {
+	case reflect.Map:
+		if v.IsNil() {
+			return
+		}
+	case reflect.Slice:
+		if v.IsNil() || v.Cap() == 0 {
+			return
+		}
+	default:
+		return
+	}
+	s.record("touch", obj, "", write, where)
 }
 
 // Point is a plain scheduling point (inserted between statements of package core).
